@@ -1,6 +1,29 @@
-// Package ring holds the rules shared by C09 (pipe) and C18 (backlog): lock
-// guard tables (engine E5), the clamp form of the ring-index helpers and the
-// mem/file sibling skeleton.
+// Package ring holds the rules and engines shared by C09 (pipe) and C18
+// (backlog).
+//
+//   - sym.go / symval.go / symq.go: the PATH ENGINE (ring.RunSym). A bounded,
+//     path-sensitive symbolic walk of one function with its same-package
+//     helpers, closures, deferred calls and pointer parameters followed. The
+//     result is a set of traces: facts established + events (opaque calls such
+//     as p.store.readSome / Cond.Wait / Signal, field reads and stores with
+//     versions, returned values). Rules are written as requirements over
+//     traces ("on every trace that sleeps ..."), so they do not depend on
+//     guard clauses vs if/else vs switch, helper extraction, named results,
+//     boolean locals, inverted conditions or equivalent integer arithmetic
+//     (facts are decided over linear forms with intervals).
+//   - storeq.go: trace rules for the mem/file buffer skeleton (closed guard,
+//     end state of the positions, reset when drained, zero window, formulas).
+//   - callers.go: "who calls X" by role (PkgCalls, OnlyVia) and RetriesOnWake
+//     (callers of a wait-and-return-(0,nil) operation retry, decided by the
+//     path engine with the wake-up injected as facts).
+//   - ring.go: lock analysis (LockHeld: helpers, closures, deferred calls and
+//     acquire/release wrappers are entry-held by fixpoint over their call
+//     sites; GuardTable: accesses, also through pointer parameters), CondOver.
+//   - transfer.go, clamp.go: value-flow rules (package flow) for the offset
+//     helper arguments / transfer window and for the clamp form of
+//     roffset / woffset.
+//   - wait.go: EvalUnder / Infeasible (assumption-based edge feasibility for
+//     cfgq path queries; also used by C12, C13).
 package ring
 
 import (
